@@ -13,7 +13,9 @@ def layout(root):
     files = {
         "entry.nix": '{ sib = import ./sib.nix; child = import ./sub/child.nix; up = import ./sub/up.nix; chain = import ./sub/chain1.nix;'
                      ' abs = import %s/abs.nix; paren = import (./sib.nix); v = "entry"; bad = import "str"; angle = import <nixpkgs>;'
-                     ' missing = import ./nope.nix; dot = import ./sub/../sib.nix; }\n' % root,
+                     ' missing = import ./nope.nix; dot = import ./sub/../sib.nix;'
+                     # relative path literals without a leading ./ (a Nix path literal only needs a slash)
+                     ' bare = import sub/child.nix; barechain = import sub/bare1.nix; baregone = import sub/nope.nix; }\n' % root,
         "sib.nix": '{ v = "sib"; }\n',
         "abs.nix": '{ v = "abs"; }\n',
         "sub/child.nix": '{ v = "child"; sibling = import ./child2.nix; }\n',
@@ -23,6 +25,14 @@ def layout(root):
         "sub/deep/chain2.nix": '{ next = import ../../other/chain3.nix; v = "chain2"; }\n',
         "other/chain3.nix": '{ next = import ./chain4.nix; v = "chain3"; }\n',
         "other/chain4.nix": '{ v = "chain4"; }\n',
+        "sub/bare1.nix": '{ v = "bare1"; next = import deep/bare2.nix; }\n',
+        "sub/deep/bare2.nix": '{ v = "bare2"; }\n',
+        "sub/sub/child.nix": '{ v = "DECOY sub/sub/child"; }\n',
+        "sub/deep/sub/child.nix": '{ v = "DECOY"; }\n',
+        "unrelated/sub/child.nix": '{ v = "DECOY unrelated"; }\n',
+        "unrelated/sub/nope.nix": '{ v = "DECOY for a missing file"; }\n',
+        "deep/bare2.nix": '{ v = "DECOY root/deep/bare2"; }\n',
+        "unrelated/deep/bare2.nix": '{ v = "DECOY"; }\n',
         # decoys with the same names relative to other directories (a cwd-relative lookup would hit these)
         "sub/sib.nix": '{ v = "DECOY sub/sib"; }\n',
         "other/sib.nix": '{ v = "DECOY other/sib"; }\n',
@@ -38,6 +48,7 @@ LOOKUPS = [
     (["sib", "v"], '"sib"'), (["child", "v"], '"child"'), (["child", "sibling", "v"], '"child2"'), (["up", "parent", "v"], '"sib"'),
     (["chain", "next", "next", "next", "v"], '"chain4"'), (["chain", "next", "v"], '"chain2"'), (["abs", "v"], '"abs"'),
     (["paren", "v"], '"sib"'), (["dot", "v"], '"sib"'),
+    (["bare", "v"], '"child"'), (["barechain", "next", "v"], '"bare2"'), (["baregone", "v"], OSError),
     (["bad", "v"], TypeError), (["angle", "v"], ValueError), (["missing", "v"], OSError),
 ]
 
@@ -54,7 +65,7 @@ def eval_case(item):
             with open(p, "w") as fh:
                 fh.write(content)
         unrelated = os.path.join(root, "unrelated")
-        os.makedirs(unrelated)
+        os.makedirs(unrelated, exist_ok=True)
         cwd = {"root": root, "sub": os.path.join(root, "sub"), "unrelated": unrelated, "deep": os.path.join(root, "sub", "deep")}[cwd_kind]
         old = os.getcwd()
         os.chdir(cwd)
